@@ -326,6 +326,10 @@ func c01StateOwner(c *Ctx) {
 					nWrites++
 					if allowed[shortFn(fn)] {
 						c.OK(rule, "write state in "+shortFn(fn), x.Pos(), "allowed writer")
+					} else if c.onlyCalledFromAny(fn, map[string]bool{"(*cmd/rdpgw/protocol.Processor).Process": true}, 0) {
+						// a helper that only Process calls (statically): the typestate model inlines it,
+						// so the transition it makes is part of the model (or the model is undecided)
+						c.OK(rule, "write state in "+shortFn(fn), x.Pos(), "helper called only from Process; inlined by the typestate model")
 					} else {
 						c.Bad(rule, "write state in "+shortFn(fn), x.Pos(), "Processor.state is written outside NewProcessor/Process: the typestate model no longer covers all transitions")
 					}
